@@ -98,9 +98,24 @@ def handle (op : String) (j : Json) : Except String Json := do
         let f ← p[0].getNat?; let hd ← p[1].getNat?; let sc ← p[2].getStr?
         pure ({ fuid := f, huid := hd, score := scoreOfString sc } : Cand)
       else throw "bad cand"
+    -- look-up model: `heads` = [[fuid, [head uids]]...] present when the scan begins
+    let insts : List Inst ← match j.getObjVal? "heads" with
+      | .ok (.arr hs) => hs.toList.mapM fun e => do
+          let q ← e.getArr?
+          if h : q.size = 2 then do
+            let f ← q[0].getNat?
+            let us ← (← q[1].getArr?).toList.mapM (·.getNat?)
+            pure ({ uid := f, flowId := f, status := .started, activated := 0, newInstanceStarted := false, parent := none, children := [],
+                    heads := us.map fun u => { uid := u, pos := 0, status := .active, cstack := [] } } : Inst)
+          else throw "bad heads"
+      | _ => pure []
+    let st : St := { insts := insts, queue := [] }
+    let lookupOk := (scanLookup false st cands).isSome
+    let lookupInLoop := (scanLookup true st cands).isSome
     let rep := matchPhaseRepaired cands
     let asis := matchPhaseAsIs cands
     pure (Json.mkObj [
+      ("lookup_ok", .bool lookupOk), ("lookup_ok_abort_in_loop", .bool lookupInLoop),
       ("asis", match asis with
         | none => .null
         | some r => Json.mkObj [("matching", Json.arr (r.matching.map candToJson).toArray), ("failing", Json.arr (r.failing.map candToJson).toArray)]),
